@@ -7,6 +7,7 @@
 (*   xa1/xa2 w.Header().Add("X-A", "v1" / "v2")                             *)
 (*   ct      w.Header().Set("Content-Type", "application/x-c36")            *)
 (*   wa/wb   w.Write("a") / w.Write("b")                                     *)
+(*   we      an EMPTY write: w.Write(nil), w.Write([]byte{}), io.WriteString(w,"") *)
 (*   fl      w.(http.Flusher).Flush()                                        *)
 (*                                                                         *)
 (* Contract (net/http documentation of ResponseWriter, RFC 8297 for 1xx):   *)
@@ -15,7 +16,8 @@
 (*  - the first WriteHeader(c), c not 1xx, commits: the status is c and the  *)
 (*    header map is snapshotted; later WriteHeader calls and later changes  *)
 (*    of the header map have no effect on the response;                     *)
-(*  - Write and Flush call WriteHeader(200) first if nothing is committed;  *)
+(*  - Write and Flush call WriteHeader(200) first if nothing is committed --  *)
+(*    a Write of zero bytes too: it commits like any other Write;            *)
 (*  - a status that allows no body (1xx, 204, 304) drops written bytes;     *)
 (*  - when the head goes to the wire (first Flush, or the handler's return  *)
 (*    for these small bodies) and the snapshot has no Content-Type and      *)
@@ -28,7 +30,7 @@ EXTENDS Integers, Sequences, FiniteSets, TLC
 CONSTANTS MaxLen     \* longest program
 
 Codes == {103, 200, 204, 404, 500}
-Ops == {"wh103", "wh200", "wh204", "wh404", "wh500", "xa1", "xa2", "ct", "wa", "wb", "fl"}
+Ops == {"wh103", "wh200", "wh204", "wh404", "wh500", "xa1", "xa2", "ct", "wa", "wb", "we", "fl"}
 CodeOf(op) == CASE op = "wh103" -> 103 [] op = "wh200" -> 200 [] op = "wh204" -> 204
                 [] op = "wh404" -> 404 [] op = "wh500" -> 500 [] OTHER -> 0
 
@@ -73,10 +75,10 @@ Do(op) ==
        [] op = "ct" ->
             /\ hct' = TRUE
             /\ UNCHANGED <<hxa, committed, status, sxa, sct, body, headOut, sniffed, info>>
-       [] op \in {"wa", "wb"} ->
+       [] op \in {"wa", "wb", "we"} ->
             LET k == Commit(200) IN
             /\ committed' = TRUE /\ status' = k.st /\ sxa' = k.xa /\ sct' = k.ct
-            /\ body' = IF BodyAllowed(k.st) THEN Append(body, IF op = "wa" THEN "a" ELSE "b") ELSE body
+            /\ body' = IF BodyAllowed(k.st) /\ op # "we" THEN Append(body, IF op = "wa" THEN "a" ELSE "b") ELSE body
             /\ UNCHANGED <<hxa, hct, headOut, sniffed, info>>
        [] op = "fl" ->
             LET k == Commit(200) IN
